@@ -6,6 +6,7 @@ import (
 	"os"
 	"runtime"
 	"slices"
+	"strings"
 	"sync/atomic"
 
 	"github.com/go-task/task/v3/errors"
@@ -437,6 +438,9 @@ func (e *Executor) FindMatchingTasks(call *Call) []*MatchingTask {
 // If no task is found, it will search for tasks with a matching alias.
 // If multiple tasks contain the same alias or no matches are found an error is returned.
 func (e *Executor) GetTask(call *Call) (*ast.Task, error) {
+	// A leading namespace separator refers to a task of the root Taskfile
+	call.Task = strings.TrimPrefix(call.Task, ast.NamespaceSeparator)
+
 	// Search for a matching task
 	matchingTasks := e.FindMatchingTasks(call)
 	if len(matchingTasks) > 0 {
